@@ -14,8 +14,9 @@ Two kinds of statements, for every field `K`, vector space `V`, system functions
   exactly `x`.  No uniqueness of fixed points is assumed: determinism of the solver plus the check
   suffice.
 
-NOT proved (would need Lipschitz data of the user functions): the chained bound on the n-step
-reversal error for non-zero tolerances — see `glStep_reverse_partial` comment at the end.
+The chained bound on the n-step reversal error for non-zero tolerances is proved in
+`Props/C02S.lean` (`chain_reverse_bound`, `glSteps_reverse_bound`, …) with the Lipschitz constant of
+the reversed step and the per-pair defect as explicit hypotheses — see the comment at the end.
 -/
 import MiciVerif.Model.IntegratorsImplicit
 import Mathlib.Algebra.Field.Rat
@@ -24,6 +25,10 @@ import Mathlib.Tactic.Module
 import Mathlib.Algebra.Module.Prod
 import Mathlib.Algebra.Order.Field.Rat
 import Mathlib.Algebra.Order.AbsoluteValue.Basic
+import Mathlib.Topology.MetricSpace.Pseudo.Defs
+import Mathlib.Topology.MetricSpace.Pseudo.Real
+import Mathlib.Algebra.BigOperators.Intervals
+import Mathlib.Tactic.Linarith
 
 namespace MiciVerif.C02
 open MiciVerif.Integrators
@@ -452,14 +457,190 @@ example : ConExact (K := ℚ) (V := ℚ × ℚ)
     subst hb
     simpa using hcot
 
+/-! ### Chained reversal bound (non-zero tolerances)
+
+In a pseudo-metric space, if the reverse step is `L`-Lipschitz and every forward/reverse pair returns
+within `δ` on the states visited, then `n` forward steps followed by `n` reverse steps return within
+`δ·(1 + L + … + L^(n-1))` of the start.  The Lipschitz constant of the reverse step and the per-pair
+defect `δ` are explicit HYPOTHESES (they depend on the user's model functions, the step size and the
+solver / reverse-check tolerances; the code establishes the per-sub-step facts `…_checked`).  Forms:
+relational core (partial steps), total maps, the API form "n steps, `dir *= -1`, n steps",
+`Except`-valued steps with the instances implicit leapfrog / implicit midpoint / constrained leapfrog. -/
+
+section Chain
+variable {X : Type*} [PseudoMetricSpace X]
+
+/-- Core (relational, so that partial steps are covered).  `x 0, …, x n` are the states of the forward
+pass, `y n = x n, y (n-1), …, y 0` those of the reverse pass (`Rev (y (k+1)) (y k)`: one reverse step).
+If `Rev` is `L`-Lipschitz and from every forward state `x (k+1)` a reverse step lands within `δ` of
+`x k`, the reverse pass ends within `δ (1 + L + … + L^(n-1))` of the start. -/
+theorem chain_reverse_bound (Rev : X → X → Prop) (L δ : ℝ) (hL0 : 0 ≤ L)
+    (hLip : ∀ a b a' b', Rev a a' → Rev b b' → dist a' b' ≤ L * dist a b)
+    (n : ℕ) (x y : ℕ → X) (hyn : y n = x n)
+    (hy : ∀ k < n, Rev (y (k + 1)) (y k))
+    (hpair : ∀ k < n, ∃ z, Rev (x (k + 1)) z ∧ dist z (x k) ≤ δ) :
+    dist (y 0) (x 0) ≤ δ * ∑ i ∈ Finset.range n, L ^ i := by
+  have key : ∀ m, m ≤ n → dist (y (n - m)) (x (n - m)) ≤ δ * ∑ i ∈ Finset.range m, L ^ i := by
+    intro m
+    induction m with
+    | zero => intro _; simp [hyn]
+    | succ m ih =>
+      intro hm
+      have hk : n - (m + 1) < n := by omega
+      have hk1 : n - (m + 1) + 1 = n - m := by omega
+      obtain ⟨z, hz, hzd⟩ := hpair _ hk
+      have hstep := hLip _ _ _ _ (hy _ hk) hz
+      rw [hk1] at hstep hz
+      have ih' := ih (by omega)
+      have h1 : dist (y (n - (m + 1))) (x (n - (m + 1))) ≤
+          dist (y (n - (m + 1))) z + dist z (x (n - (m + 1))) := dist_triangle _ _ _
+      have h2 : L * dist (y (n - m)) (x (n - m)) ≤ L * (δ * ∑ i ∈ Finset.range m, L ^ i) :=
+        mul_le_mul_of_nonneg_left ih' hL0
+      have h3 : ∑ i ∈ Finset.range (m + 1), L ^ i = L * ∑ i ∈ Finset.range m, L ^ i + 1 := by
+        rw [Finset.sum_range_succ', Finset.mul_sum]
+        simp [pow_succ, mul_comm]
+      rw [h3]
+      nlinarith [h1, h2, hstep, hzd]
+  simpa using key n le_rfl
+
+/-- Total forward / reverse maps: `R^[n] (F^[n] x)` is within `δ (1 + L + … + L^(n-1))` of `x`. -/
+theorem iterate_reverse_bound (F R : X → X) (L δ : ℝ) (hL0 : 0 ≤ L)
+    (hLip : ∀ a b, dist (R a) (R b) ≤ L * dist a b) (n : ℕ) (x : X)
+    (hpair : ∀ k < n, dist (R (F (F^[k] x))) (F^[k] x) ≤ δ) :
+    dist (R^[n] (F^[n] x)) x ≤ δ * ∑ i ∈ Finset.range n, L ^ i := by
+  have := chain_reverse_bound (fun a a' => a' = R a) L δ hL0
+    (by rintro a b _ _ rfl rfl; exact hLip a b) n (fun k => F^[k] x) (fun k => R^[n - k] (F^[n] x))
+    (by simp)
+    (by
+      intro k hk
+      have : n - k = (n - (k + 1)) + 1 := by omega
+      simp only [this, Function.iterate_succ_apply'])
+    (by
+      intro k hk
+      exact ⟨_, rfl, by simpa [Function.iterate_succ_apply'] using hpair k hk⟩)
+  simpa using this
+
+omit [PseudoMetricSpace X] in
+private theorem steps_x_dir {K : Type*} [Field K] (stepT : K → X → X) (ε : K) (n : ℕ) (s : State X K) :
+    (steps stepT ε n s).x = (stepT (s.dir * ε))^[n] s.x ∧ (steps stepT ε n s).dir = s.dir := by
+  induction n with
+  | zero => exact ⟨rfl, rfl⟩
+  | succ n ih =>
+    unfold steps at *
+    rw [Function.iterate_succ_apply', Function.iterate_succ_apply']
+    simp only [step, ih.1, ih.2, and_self]
+
+/-- API form: `integrator.step` n times, `state.dir *= -1`, `integrator.step` n times.  Hypotheses: the
+step with the reversed direction is `L`-Lipschitz, and on each of the n states visited the pair
+"step, reversed step" returns within `δ`.  Conclusion: the final state is within
+`δ (1 + L + … + L^(n-1))` of the start.  (`δ = 0` gives back `steps_reverse_x`.) -/
+theorem steps_reverse_bound {K : Type*} [Field K] (stepT : K → X → X) (ε : K) (L δ : ℝ) (hL0 : 0 ≤ L)
+    (s : State X K)
+    (hLip : ∀ a b, dist (stepT (-s.dir * ε) a) (stepT (-s.dir * ε) b) ≤ L * dist a b) (n : ℕ)
+    (hpair : ∀ k < n, dist (stepT (-s.dir * ε) (stepT (s.dir * ε) ((stepT (s.dir * ε))^[k] s.x)))
+      ((stepT (s.dir * ε))^[k] s.x) ≤ δ) :
+    dist (steps stepT ε n (flipDir (steps stepT ε n s))).x s.x ≤ δ * ∑ i ∈ Finset.range n, L ^ i := by
+  rw [(steps_x_dir stepT ε n _).1]
+  simp only [flipDir, (steps_x_dir stepT ε n s).1, (steps_x_dir stepT ε n s).2]
+  exact iterate_reverse_bound _ _ L δ hL0 hLip n s.x hpair
+
+/-- `Except`-valued steps (an `IntegratorError` aborts): forward trajectory `x 0 … x n` with step size
+`ε`, reverse trajectory `y n = x n, …, y 0` with step size `-ε`, all steps returning.  If the `-ε`
+step is `L`-Lipschitz where it returns, and from every `x (k+1)` it returns within `δ` of `x k`, then
+`dist (y 0) (x 0) ≤ δ (1 + L + … + L^(n-1))`. -/
+theorem res_steps_reverse_bound {K : Type*} [Field K] (stepR : K → X → Res X) (ε : K) (L δ : ℝ)
+    (hL0 : 0 ≤ L)
+    (hLip : ∀ a b a' b', stepR (-ε) a = .ok a' → stepR (-ε) b = .ok b' → dist a' b' ≤ L * dist a b)
+    (n : ℕ) (x y : ℕ → X) (hyn : y n = x n)
+    (hy : ∀ k < n, stepR (-ε) (y (k + 1)) = .ok (y k))
+    (hpair : ∀ k < n, ∃ z, stepR (-ε) (x (k + 1)) = .ok z ∧ dist z (x k) ≤ δ) :
+    dist (y 0) (x 0) ≤ δ * ∑ i ∈ Finset.range n, L ^ i :=
+  chain_reverse_bound (fun a a' => stepR (-ε) a = .ok a') L δ hL0 hLip n x y hyn hy hpair
+
+/-- Instance: `ImplicitLeapfrogIntegrator` (any solver, any tolerance predicate). -/
+theorem glSteps_reverse_bound {K V : Type*} [Field K] [AddCommGroup V] [Module K V]
+    [PseudoMetricSpace (V × V)] (S : GLSystem V) (solve : (V → V) → V → Res V) (far : V → Bool)
+    (ε : K) (L δ : ℝ) (hL0 : 0 ≤ L)
+    (hLip : ∀ a b a' b', glStep S solve far (-ε) a = .ok a' → glStep S solve far (-ε) b = .ok b' →
+      dist a' b' ≤ L * dist a b)
+    (n : ℕ) (x y : ℕ → V × V) (hyn : y n = x n)
+    (hy : ∀ k < n, glStep S solve far (-ε) (y (k + 1)) = .ok (y k))
+    (hpair : ∀ k < n, ∃ z, glStep S solve far (-ε) (x (k + 1)) = .ok z ∧ dist z (x k) ≤ δ) :
+    dist (y 0) (x 0) ≤ δ * ∑ i ∈ Finset.range n, L ^ i :=
+  res_steps_reverse_bound (glStep S solve far) ε L δ hL0 hLip n x y hyn hy hpair
+
+/-- Instance: `ImplicitMidpointIntegrator`. -/
+theorem imSteps_reverse_bound {K W : Type*} [Field K] [AddCommGroup W] [Module K W]
+    [PseudoMetricSpace W] (f : W → W) (solve : (W → W) → W → Res W) (far : W → Bool)
+    (ε : K) (L δ : ℝ) (hL0 : 0 ≤ L)
+    (hLip : ∀ a b a' b', imStep f solve far (-ε) a = .ok a' → imStep f solve far (-ε) b = .ok b' →
+      dist a' b' ≤ L * dist a b)
+    (n : ℕ) (x y : ℕ → W) (hyn : y n = x n)
+    (hy : ∀ k < n, imStep f solve far (-ε) (y (k + 1)) = .ok (y k))
+    (hpair : ∀ k < n, ∃ z, imStep f solve far (-ε) (x (k + 1)) = .ok z ∧ dist z (x k) ≤ δ) :
+    dist (y 0) (x 0) ≤ δ * ∑ i ∈ Finset.range n, L ^ i :=
+  res_steps_reverse_bound (imStep f solve far) ε L δ hL0 hLip n x y hyn hy hpair
+
+/-- Instance: `ConstrainedLeapfrogIntegrator` (any number of inner steps, any projection solver). -/
+theorem conSteps_reverse_bound {K V : Type*} [Field K] [AddCommGroup V] [Module K V]
+    [PseudoMetricSpace (V × V)] (S : ConSystem K V) (retr : K → V × V → V × V → Res (V × V))
+    (far : V → Bool) (nInner : ℕ) (ε : K) (L δ : ℝ) (hL0 : 0 ≤ L)
+    (hLip : ∀ a b a' b', conStep S retr far nInner (-ε) a = .ok a' →
+      conStep S retr far nInner (-ε) b = .ok b' → dist a' b' ≤ L * dist a b)
+    (n : ℕ) (x y : ℕ → V × V) (hyn : y n = x n)
+    (hy : ∀ k < n, conStep S retr far nInner (-ε) (y (k + 1)) = .ok (y k))
+    (hpair : ∀ k < n, ∃ z, conStep S retr far nInner (-ε) (x (k + 1)) = .ok z ∧ dist z (x k) ≤ δ) :
+    dist (y 0) (x 0) ≤ δ * ∑ i ∈ Finset.range n, L ^ i :=
+  res_steps_reverse_bound (conStep S retr far nInner) ε L δ hL0 hLip n x y hyn hy hpair
+
+/-- Non-vacuity, and the bound is SHARP: on `ℝ`, forward step `F x = x/2 + 1`, reverse step
+`R y = 2y − 2 + 1/100` (a reverse step that misses by `δ = 1/100`, Lipschitz constant `L = 2`); after
+2 + 2 steps the error is exactly `δ (1 + L) = 3/100`. -/
+example :
+    let F : ℝ → ℝ := fun x => x / 2 + 1
+    let R : ℝ → ℝ := fun y => 2 * y - 2 + 1 / 100
+    (∀ a b, dist (R a) (R b) ≤ 2 * dist a b) ∧ (∀ x, dist (R (F x)) x ≤ 1 / 100) ∧
+      dist (R^[2] (F^[2] 0)) 0 = 1 / 100 * ∑ i ∈ Finset.range 2, (2 : ℝ) ^ i := by
+  intro F R
+  refine ⟨fun a b => ?_, fun x => ?_, ?_⟩
+  · simp only [R, Real.dist_eq]
+    rw [show 2 * a - 2 + 1 / 100 - (2 * b - 2 + 1 / 100) = 2 * (a - b) by ring, abs_mul]
+    norm_num
+  · simp only [R, F, Real.dist_eq]
+    rw [show 2 * (x / 2 + 1) - 2 + 1 / 100 - x = 1 / 100 by ring]
+    norm_num
+  · simp only [R, F, Real.dist_eq, Function.iterate_succ, Function.iterate_zero, Function.comp,
+      id_eq, Finset.sum_range_succ, Finset.sum_range_zero]
+    norm_num
+
+/-- … and the theorem applied to this instance (all hypotheses discharged). -/
+example : dist ((fun y : ℝ => 2 * y - 2 + 1 / 100)^[5] ((fun x : ℝ => x / 2 + 1)^[5] 0)) 0 ≤
+    1 / 100 * ∑ i ∈ Finset.range 5, (2 : ℝ) ^ i := by
+  apply iterate_reverse_bound _ _ 2 (1 / 100) (by norm_num)
+  · intro a b
+    simp only [Real.dist_eq]
+    rw [show 2 * a - 2 + 1 / 100 - (2 * b - 2 + 1 / 100) = 2 * (a - b) by ring, abs_mul]
+    norm_num
+  · intro k _
+    simp only [Real.dist_eq]
+    generalize (fun x : ℝ => x / 2 + 1)^[k] 0 = w
+    rw [show 2 * (w / 2 + 1) - 2 + 1 / 100 - w = 1 / 100 by ring]
+    norm_num
+
+end Chain
+
+
 /-
-`glStep_reverse_partial` (NOT proved; full statement kept here):
-  for tolerances τ > 0, a norm `‖·‖` and a solver with `‖f y − y‖ < convergence_tol`, if n forward
-  steps and n steps after `dir *= -1` all return then `‖x_back − x‖ ≤ C(L, n) · (τ + convergence_tol)`
-  where `L` bounds the Lipschitz constants of `dh1_dpos`, `dh2_dpos`, `dh2_dmom`.
-What is missing: Lipschitz data of the user functions (not available for arbitrary callables); the
-per-sub-step statements `…_checked` above are the tolerance-level facts the code does establish.
-The harness measures the n-step reversal residual on the real code instead.
+Chained n-step bound (formerly the unproved `glStep_reverse_partial`): now `Props/C02S.lean`,
+  `chain_reverse_bound` / `res_steps_reverse_bound` / `glSteps_reverse_bound` / `imSteps_reverse_bound` /
+  `conSteps_reverse_bound`: if the step with `-ε` is `L`-Lipschitz (where it returns) and from every
+  forward state it returns within `δ` of the previous one, then n forward and n reverse steps end within
+  `δ (1 + L + … + L^(n-1))` of the start.
+What is still NOT derived in Lean: `L` and `δ` themselves from Lipschitz data of the user functions
+  (`dh1_dpos`, `dh2_dpos`, `dh2_dmom`), the solver's `convergence_tol` and `reverse_check_tol` — they are
+  hypotheses of the theorem (arbitrary callables carry no such data); the per-sub-step statements
+  `…_checked` above are the tolerance-level facts the code does establish, and the harness measures the
+  n-step reversal residual on the real code.
 -/
 
 end MiciVerif.C02
